@@ -667,3 +667,33 @@ def match_stream(ck, iexe, n, n_samples, tag):
     srcs = [gen_match_source(rng.fork(i)) for i in range(n)]
     res = run_impl(iexe, [{"src": s, "n": n_samples, "state": True, "typecheck": True} for s in srcs])
     return list(zip(srcs, res))
+
+
+# ---------------------------------------------------------------------------------------------------------------------
+# programs OUTSIDE the Lmmm fragment with a WIDE `self` (tuple / record / nested tuple / sum type with payload), see lib/wideself.py.
+# Each case carries the stream the property text of C02 prescribes (python reference evaluator), so the checks can evaluate
+# C05's layout clauses and C02's output clause on the real compiler.
+def wide_stream(ck, iexe, n, n_samples, tag):
+    """[(case, result)]: case = {"src", "expect", "shapes"}"""
+    import wideself
+    rng = ck.rng.fork("wide-" + tag)
+    cases = [wideself.gen_case(rng.fork(i), n_samples) for i in range(n)]
+    res = run_impl(iexe, [{"src": c["src"], "n": n_samples, "state": True, "typecheck": True} for c in cases])
+    return list(zip(cases, res))
+
+
+def wide_output_mismatch(case, r):
+    """C02's clause on one wide-self case: None, or a description of the first difference from the reference stream"""
+    for be in ("vm", "wasm"):
+        b = r.get(be)
+        if b is None or 'samples' not in b:
+            return "%s rejects/panics at compile time: %s" % (be, str((b or {}).get('compile') or (b or {}).get('compile_panic'))[:200])
+        for t, row in enumerate(case["expect"]):
+            if t >= len(b['samples']):
+                return "%s stopped at sample %d" % (be, t)
+            o = sample_outs(b, t)
+            if isinstance(o, tuple):
+                return "%s panics at sample %d: %s" % (be, t, o[1][:120])
+            if o != [float(v) for v in row]:
+                return "%s output at sample %d is %s, call-by-value/per-call-site-state semantics gives %s" % (be, t, o, row)
+    return None
